@@ -49,6 +49,14 @@ CHECKS = {
             'iter_CUs headers, iter_CU_range_lists_ex, translate_v5_entry; expression-vs-list-vs-neither classification over (attribute, form, version) cells.',
             'Trusted: list encoders and the classification table in vf/checks/c07.py, vf/enc/dwarf.py for the DIEs. Cells DWARF v2/v3 leave ambiguous (constant forms on location attributes) are not asserted.',
             'DESIGN.md 4/C07'),
+    'C10': ('model-based history testing: bounded-exhaustive exploration of operation sequences with abstract cache-state hashing + Hypothesis-generated long histories; oracle = the same query on a freshly opened object',
+            'Exploration: every query result inside a history (section/symbol access, unit/DIE lookup by offset, parent/children/sibling navigation, reference following, '
+            'type units, line programs, CFI and decoded tables, dynamic segment) equals the fresh-object result, with adversarial stream repositioning and suspended generators '
+            'interleaved; all sequences up to depth 3 (quick) / 4 (thorough) over fixture alphabets are enumerated, expanding each abstract cache state once; long random '
+            'histories on generated and shipped files.',
+            'Trusted: the fresh-object run as ground truth (so a defect that shows on a fresh object is invisible here and belongs to C01-C09), canonicalisation in vf/dump.py; '
+            'private cache attributes are read only to hash exploration states. Lists of operations are used instead of a RuleBasedStateMachine so that a history is a JSON replay file.',
+            'DESIGN.md 4/C10'),
     'C11': ('metamorphic: the same debug payload (corpus-extracted and Hypothesis-generated) wrapped by an independent ELF writer into plain / SHF_COMPRESSED / .zdebug / debuglink / supplementary containers; canonical dumps must coincide and every payload section must reach DWARFInfo byte-identical',
             'Exploration: canonical dumps (units, DIEs with resolved values, line tables, CFI tables, aranges, pubnames) of every container variant equal the plain '
             'container and, for corpus files, the original; section pickup is byte-exact; has_dwarf_info truth table over name subsets x strict; wrong debuglink CRC '
